@@ -800,3 +800,59 @@ def unsafe_length_compared_with_the_wrong_string(module: Node, prefix: str) -> b
     if len(module) <= len(prefix):
         return True
     return module[len(root)] == SEPARATOR
+
+
+def safe_match_on_next_character(module: Node, listed: list[Node], aliases: dict[str, str]) -> str:
+    for candidate in listed:
+        if not module.startswith(candidate):
+            continue
+        match (remainder := module[len(candidate):])[:1]:
+            case "" | ".":
+                return aliases[candidate] + remainder
+            case _:
+                continue
+    return module
+
+
+def safe_walrus_in_the_raw_test(module: Node, prefix: str) -> bool:
+    if not module.startswith(root := prefix.rstrip(".")):
+        return False
+    return module[len(root) : len(root) + 1] in ("", ".")
+
+
+def unsafe_match_on_wrong_character(module: Node, listed: list[Node], aliases: dict[str, str]) -> str:
+    for candidate in listed:
+        if not module.startswith(candidate):
+            continue
+        match (remainder := module[len(candidate):])[:1]:
+            case "" | "_":
+                return aliases[candidate] + remainder
+            case _:
+                continue
+    return module
+
+
+def safe_alternation_of_escaped_names(modules: list[Node]) -> list[str]:
+    escaped = sorted(map(lambda m: re.escape(m), modules))
+    below_any = re.compile(r"(?:{})\.".format("|".join(escaped)))
+    return [m for m in modules if below_any.match(m) is None]
+
+
+def unsafe_alternation_of_plain_names(modules: list[Node]) -> list[str]:
+    below_any = re.compile(r"(?:{})\.".format("|".join(sorted(modules))))
+    return [m for m in modules if below_any.match(m) is None]
+
+
+def safe_prefixes_by_mapped_format(module: Node, listed: list[Node]) -> bool:
+    prefixes = tuple(map("{}.".format, listed))
+    return any(map(module.startswith, prefixes))
+
+
+def safe_same_loop_variable_twice(modules: list[Node], listed: list[Node]) -> list[str]:
+    dotted = []
+    for name in listed:
+        dotted.append(name + ".")
+    out = []
+    for name in dotted:
+        out += [m for m in modules if m.startswith(name)]
+    return out
